@@ -91,8 +91,8 @@ SPECS["C41"] = dict(
     harness="C41_domain.cc", units=TOK + ["src/anyp/Uri.cc", "lib/rfc1738.cc", "lib/util.cc", "lib/Splay.cc"],
     entries=dict(
         quick=[dict(name="c41_two_values", bounds="1..2 configured values of 1..2 bytes over {a,b,.} (optional leading dot), host of 1..3 bytes over {a,B,.}; all names well-formed (non-empty labels, single dots, no trailing dot, host without leading dot); both insertion orders are covered because the values are symbolic", reach=["match", "nomatch"], sample_every=13),
-               dict(name="c41_hyphen", bounds="1..2 configured values of 1..3 bytes over {a,-,.} (optional leading dot), host of 1..3 bytes over {a,-,.}; well-formed as above ('-' sorts below '.', every other host-name character above it: the splay ordering has to treat the label separator specially)", reach=["match", "nomatch"], sample_every=101)],
-        thorough=[dict(name="c41_hyphen", bounds="as quick", reach=["match", "nomatch"], sample_every=101),
+               dict(name="c41_hyphen", bounds="1..2 configured values of 1..2 bytes over {a,-,.} (optional leading dot), host of 1..3 bytes over {a,-,.}; well-formed as above ('-' sorts below '.', every other host-name character above it: the splay ordering has to treat the label separator specially)", reach=["match", "nomatch"], sample_every=101)],
+        thorough=[dict(name="c41_hyphen", bounds="as quick with values of 1..3 bytes", reach=["match", "nomatch"], sample_every=101),
                   dict(name="c41_two_long_values", bounds="1..2 values of 1..3 bytes, host of 1..3 bytes; same alphabets and well-formedness", reach=["match", "nomatch"], sample_every=101)]),
     timeout=dict(quick=300, thorough=1800),
     stubs=["ConfigParser::strtokFile hands out the harness's values (ConfigParser.cc is not linked)", "libc strcasecmp/tolower/strlen models (C locale)", "debugs() disabled"],
